@@ -24,8 +24,22 @@ func (s Stream) String() string {
 	return "aof"
 }
 
-// PRF maps (epoch, stream, offset) to a byte.  Key separates histories.
+// PRF maps (source history, stream, offset) to a byte.  Key separates harness histories; the
+// source history is identified by a 64-bit id derived from the replication id (HistoryID): the
+// same source at the same offset always produces the same byte, as a real replication stream does.
 type PRF struct{ Key uint64 }
+
+// HistoryID derives the source-history id from a replication (run) id.
+func HistoryID(runID string) uint64 {
+	h := uint64(1469598103934665603)
+	for i := 0; i < len(runID); i++ {
+		h = (h ^ uint64(runID[i])) * 1099511628211
+	}
+	return mix(h)
+}
+
+// SnapshotID is the id of the snapshot stream a source produces at replication offset left.
+func SnapshotID(hist uint64, left int64) uint64 { return mix(hist ^ mix(uint64(left)+0x51ed27)) }
 
 func mix(x uint64) uint64 {
 	x += 0x9e3779b97f4a7c15
@@ -34,22 +48,22 @@ func mix(x uint64) uint64 {
 	return x ^ (x >> 31)
 }
 
-func (p PRF) word(epoch int, s Stream, blk uint64) uint64 {
-	return mix(mix(p.Key^(uint64(epoch)<<8|uint64(s))) ^ (blk * 0xd6e8feb86659fd93))
+func (p PRF) word(id uint64, s Stream, blk uint64) uint64 {
+	return mix(mix(p.Key^mix(id)^uint64(s)) ^ (blk * 0xd6e8feb86659fd93))
 }
 
-// Byte is the source byte at offset off of stream s in epoch.
-func (p PRF) Byte(epoch int, s Stream, off int64) byte {
+// Byte is the source byte at offset off of stream s of source id.
+func (p PRF) Byte(id uint64, s Stream, off int64) byte {
 	u := uint64(off)
-	return byte(p.word(epoch, s, u>>3) >> (8 * (u & 7)))
+	return byte(p.word(id, s, u>>3) >> (8 * (u & 7)))
 }
 
 // Fill writes the source bytes for offsets off, off+1, ... into dst.
-func (p PRF) Fill(dst []byte, epoch int, s Stream, off int64) {
+func (p PRF) Fill(dst []byte, id uint64, s Stream, off int64) {
 	u := uint64(off)
 	i := 0
 	for i < len(dst) {
-		w := p.word(epoch, s, u>>3)
+		w := p.word(id, s, u>>3)
 		for k := u & 7; k < 8 && i < len(dst); k++ {
 			dst[i] = byte(w >> (8 * k))
 			i++
@@ -60,11 +74,11 @@ func (p PRF) Fill(dst []byte, epoch int, s Stream, off int64) {
 
 // FirstMismatch returns the index of the first byte of got that differs from the source bytes
 // at off, off+1, ..., or -1.
-func (p PRF) FirstMismatch(got []byte, epoch int, s Stream, off int64) int {
+func (p PRF) FirstMismatch(got []byte, id uint64, s Stream, off int64) int {
 	u := uint64(off)
 	i := 0
 	for i < len(got) {
-		w := p.word(epoch, s, u>>3)
+		w := p.word(id, s, u>>3)
 		for k := u & 7; k < 8 && i < len(got); k++ {
 			if got[i] != byte(w>>(8*k)) {
 				return i
@@ -80,6 +94,8 @@ func (p PRF) FirstMismatch(got []byte, epoch int, s Stream, off int64) int {
 type Origin struct {
 	Found  bool
 	Epoch  int
+	RunID  string
+	ID     uint64 // source id of the stream the bytes come from
 	Stream Stream
 	Off    int64
 	Len    int // how many bytes of the window matched
@@ -89,5 +105,5 @@ func (o Origin) String() string {
 	if !o.Found {
 		return "no written (epoch, offset) produces these bytes"
 	}
-	return fmt.Sprintf("epoch %d %s offset %d (%d bytes match)", o.Epoch, o.Stream, o.Off, o.Len)
+	return fmt.Sprintf("epoch %d (source %q) %s offset %d (%d bytes match)", o.Epoch, o.RunID, o.Stream, o.Off, o.Len)
 }
